@@ -28,6 +28,7 @@ DRIVERS = [
     (r"mint\.Mint\)\.Swap$", r"post@atomic", "mint", MINT_FILES, "TestVerifReplay_DupBSwap", None),
     (r"mint\.Mint\)\.MintTokens$", r"post@revert|pre:storage\.MintDB\.UpdateMintQuoteState@legal", "mint", MINT_FILES, "TestVerifReplay_DupBMint|TestVerifReplay_MintStorageFault", None),
     (r"mint\.Mint\)\.MintTokens$", r"boundary|post@faultrevert", "mint", MINT_FILES, "TestVerifReplay_MintStorageFault", None),
+    (r"mint\.Mint\)\.MintTokens$", r"post@cashuerr", "mint", MINT_FILES, "TestVerifReplay_HTTPMintRawStorageError", None),
     (r"mint\.Mint\)\.MeltTokens$", r"callsite:lightning\.Client\.SendPayment", "mint", MINT_FILES, "TestVerifReplay_MeltFeeLimit", None),
     (r"mint\.Mint\)\.MeltTokens$", r"callsite:mint\.Mint\.settleQuotesInternally@covers", "mint", MINT_FILES, "TestVerifReplay_InternalSettleOtherInvoice", None),
     (r"mint\.Mint\)\.checkInvoicePaid$", r"callsite:storage\.MintDB\.UpdateMintQuoteState@unpaid2paid|pre:storage\.MintDB\.UpdateMintQuoteState@legal", "mint", MINT_FILES, "TestVerifReplay_LateSettledNotification", None),
